@@ -197,12 +197,16 @@ impl SlabRouter {
         match Self::classify_key(key) {
             KeyClass::Embedding => {
                 let entity_id = self.index.get_or_create(key);
-                // Extract vector from TensorValue if present
-                if let Some(TensorValue::Vector(vec)) = value.get("_embedding") {
-                    // Try to store in embedding slab; if dimension mismatch, just use metadata
-                    if self.embeddings.set(entity_id, vec).is_err() {
-                        // Dimension mismatch - store in metadata only (this is fine)
-                    }
+                // Extract vector from TensorValue if present.
+                // Try to store in embedding slab; if dimension mismatch, just use metadata
+                let in_slab = matches!(
+                    value.get("_embedding"),
+                    Some(TensorValue::Vector(vec)) if self.embeddings.set(entity_id, vec).is_ok()
+                );
+                if !in_slab {
+                    // The new value brings no slab vector: one left by an earlier put must not
+                    // be served together with the new fields.
+                    self.embeddings.delete(entity_id);
                 }
                 // Also store metadata (always includes the embedding for retrieval)
                 self.metadata.set(key, value);
@@ -519,6 +523,24 @@ impl SlabRouter {
                     embedding: embedding.clone(),
                 })
                 .map_err(|e| SlabRouterError::WalError(format!("Failed to log embedding: {e}")))?;
+            }
+            // A value without a slab vector replaces one that has it: log the removal too,
+            // so that replay does not pair the old vector with the new fields.
+            let keeps_slab_vector = matches!(
+                value.get("_embedding"),
+                Some(TensorValue::Vector(v)) if v.len() == self.embeddings.dimension()
+            );
+            if !keeps_slab_vector {
+                if let Some(entity_id) = self.index.get(key) {
+                    if self.embeddings.contains(entity_id) {
+                        wal.append(&WalEntry::EmbeddingDelete { entity_id })
+                            .map_err(|e| {
+                                SlabRouterError::WalError(format!(
+                                    "Failed to log embedding delete: {e}"
+                                ))
+                            })?;
+                    }
+                }
             }
 
             // Log metadata set (sync behavior depends on WalConfig::sync_mode)
